@@ -141,7 +141,7 @@ def check_segment(name, scale, cfg, acc, only=None, budget=None, rot=0, shift=0j
                 sig['options'] = sorted(k for k in opts if k != 'how')
             if usq is not None:
                 sig['module_setting'] = 'USE_SCIPY_QUAD=%r' % usq
-            if not cfg and scale <= 1e-6:
+            if scale <= 1e-6:
                 sig['tiny_drawing'] = True
             if r[0] != 'ok':
                 acc.violation('length_raises', dict(sig, exc=r[1]), case, observed=r)
@@ -181,7 +181,7 @@ def check_segment(name, scale, cfg, acc, only=None, budget=None, rot=0, shift=0j
                     acc.case({'what': 'additivity', 'shape': name, 'scale': scale, 'config': cfg, 't': [t0, tm, t1]},
                              cls='additivity/%s' % cfgname)
                     if not abs(whole - parts) <= rel * max(whole, parts) + 1e-13 * scale:
-                        acc.violation('not_additive', dict({'kind': kind, 'config': cfgname, 'branch': branch}, **({'tiny_drawing': True} if (not cfg and scale <= 1e-6) else {})),
+                        acc.violation('not_additive', dict({'kind': kind, 'config': cfgname, 'branch': branch}, **({'tiny_drawing': True} if scale <= 1e-6 else {})),
                                       {'what': 'segment', 'shape': name, 'scale': scale, 'config': cfg, 't0': t0, 't1': t1, 'tm': tm, 'rot': rot, 'shift': core.jz(shift)},
                                       observed=[whole, parts])
     finally:
